@@ -19,6 +19,7 @@ import (
 	"bytes"
 	"fmt"
 	"math"
+	"os"
 	"sort"
 	"strconv"
 	"strings"
@@ -265,6 +266,11 @@ func c10Gen(c *hmain.Ctx) {
 	c10W = c.W
 	r := c.R
 	c.W.Oracle("Go int is 64 bits wide (strconv.IntSize)", strconv.IntSize == 64, "IntSize="+strconv.Itoa(strconv.IntSize))
+	if os.Getenv("C10_ONLY") == "topics" { // development aid: only the streams about the topics list
+		c10GenTopicLists(c)
+		c10GenGroup(c)
+		return
+	}
 
 	// 1. boundary sweep: every power of two, +-1, inside and just outside the stated ranges and up to
 	// the ends of the Go types; all (index, partition) pairs and all (offset, epoch) pairs
@@ -487,6 +493,9 @@ func c10Gen(c *hmain.Ctx) {
 		c.Do("raw-commit", 3, hx.L(hx.Ss(topics), hx.L(evs...)), true)
 	}
 
+	// 6b. the topics list itself: repeats, permutations, prefixes (gentopics.go)
+	c10GenTopicLists(c)
+
 	// 7. scale / history thresholds of consumer.go (gen37.go): big fetches, many fetches, long commit histories, sessions
 	c10GenThresholds(c)
 
@@ -496,9 +505,12 @@ func c10Gen(c *hmain.Ctx) {
 
 func main() {
 	hmain.Run(&hmain.Prop{ID: "C10",
-		Rule: "boundary: all powers of two and their neighbours up to the ends of the Go types, all (index,partition) and (offset,epoch) pairs, and the 16 corners of the stated ranges inside/just outside; exhaustive: index<4 x partition<16 x offset<16 x epoch<4 and every one of the 65536 partition and epoch values; random tuples (70% inside the stated ranges over all bit lengths); unpacking of arbitrary bit patterns; random consume+Commit sequences (permuted completion order, repeats, omissions, duplicate topic names, epoch -1 / out-of-range components) on the real Commit + real kgo marks; raw events incl. topic index outside the list; consumer.go thresholds (gen37.go): one fetch of 255..700 records (bufferSize 256), 6..40 fetches of one partition, 150..300 Commit calls on one plugin, directed and random consumer-group sessions on the real Assigned / Lost / pconsumer goroutines (bursts of 6..12 fetches on one consumer, Lost with 0..6 buffered fetches incl. the full channel of 5, fetches for partitions without a consumer, re-assignment with redelivery); which=5 (group.go, broker.go, gengroup.go): the real plugin through Factory / Start / NewClient / the poll loop / Stop in a consumer group on an in-process Kafka broker, several plugin lifetimes on one group (restart after Stop, after a refused final commit, rebalances), all balancers, both offset settings, meta templates, PollRecords limits 1..256, optionally the real pipeline between In and Commit. Non-trivial = all four components positive and inside the ranges (pack), an in-range sequence with >= 3 Commit calls (commit), every unpack / raw case, an in-range session that routed at least one record; distinct = distinct (sub-model, case) text.",
+		Rule: "boundary: all powers of two and their neighbours up to the ends of the Go types, all (index,partition) and (offset,epoch) pairs, and the 16 corners of the stated ranges inside/just outside; exhaustive: index<4 x partition<16 x offset<16 x epoch<4 and every one of the 65536 partition and epoch values; random tuples (70% inside the stated ranges over all bit lengths); unpacking of arbitrary bit patterns; random consume+Commit sequences (permuted completion order, repeats, omissions, duplicate topic names, epoch -1 / out-of-range components) on the real Commit + real kgo marks; raw events incl. topic index outside the list; consumer.go thresholds (gen37.go): one fetch of 255..700 records (bufferSize 256), 6..40 fetches of one partition, 150..300 Commit calls on one plugin, directed and random consumer-group sessions on the real Assigned / Lost / pconsumer goroutines (bursts of 6..12 fetches on one consumer, Lost with 0..6 buffered fetches incl. the full channel of 5, fetches for partitions without a consumer, re-assignment with redelivery); which=5 (group.go, broker.go, gengroup.go): the real plugin through Factory / Start / NewClient / the poll loop / Stop in a consumer group on an in-process Kafka broker, several plugin lifetimes on one group (restart after Stop, after a refused final commit, rebalances), all balancers, both offset settings, meta templates, PollRecords limits 1..256, optionally the real pipeline between In and Commit; the topics list itself (gentopics.go, gengroup.go): every list of 1..4 positions over a / ab / b through the real consumer loop and Commit (commit-topics), random lists of 2..8 positions over seven prefix / near-miss names with partial acknowledgement (commit-topics-random), such lists through Assigned / Lost sessions (session-topics) and through the whole plugin in a consumer group (group-topics-directed: repeats with other names behind them, all orders of three names, prefix names; group-topics: random lists), each acknowledgement judged per Commit call against the records acknowledged by then. Non-trivial = all four components positive and inside the ranges (pack), an in-range sequence with >= 3 Commit calls (commit), every unpack / raw case, an in-range session that routed at least one record; distinct = distinct (sub-model, case) text.",
 		Gen: func(c *hmain.Ctx) {
 			c10Gen(c)
+			if os.Getenv("C10_ONLY") != "" {
+				return
+			}
 			// frontier clause at pipeline level: a kafka-like input (UseSpread + DisableStreams) on the
 			// real pipeline; monitor = per-source (partition) commit frontier
 			pipedrv.GenFamilies(c, pipedrv.PipeWhich, []pipedrv.Fam{{Stream: "spread-frontier", Opts: pipedrv.FamSpread, N: 40}, {Stream: "spread-split", Opts: pipedrv.FamSpreadSplit, N: 20}})
